@@ -288,6 +288,227 @@ Proof.
   rewrite Est. apply (fwd_fails p h _ Hwh Bd Hk (9 + y)).
 Qed.
 
+(* ---- forward declarations `class X ;` and `virtual class X ;` ----
+   `class X ;` is ALSO a well-formed property declaration (type `class`, name X): the two alternatives consume the same
+   text and the alternation keeps the one listed first, the forward declaration. *)
+Definition kclass : chars := chars_of "class".
+Definition kvirtual : chars := chars_of "virtual".
+Definition virt_toks (virt : bool) : list chars := if virt then [kvirtual] else [].
+Definition fwd_toks (virt : bool) (name : string) : list chars := virt_toks virt ++ [kclass; chars_of name; semi].
+Definition virt_items (virt : bool) : list Peg.item := if virt then [(["is_virtual"%string], VStr "virtual")] else [].
+Definition fwd_value (virt : bool) (n : chars) : value :=
+  VNode "ForwardDeclaration" (virt_items virt ++
+                              [([], VStr "class"); (["name"%string], VNode "Typename" (strs_items [n]))]).
+
+Lemma semi_no_colons : forall R, no_colons (sp semi R).
+Proof. intros R. right. exists ";"%char, R. split; [reflexivity|]. split; reflexivity. Qed.
+
+Lemma no_blank_virtual : ~ In " "%char (chars_of "virtual"). Proof. noblank. Qed.
+
+Lemma fwd_ok : forall (virt : bool) f p n R, is_ident n = true ->
+  exists p', interp g (13 + f) (GRef "ForwardDeclaration")
+                    {| pk := p; rest := render ((virt_toks virt) ++ [kclass; n; semi]) R |}
+             = Match [([], fwd_value virt n)] {| pk := p'; rest := R |}.
+Proof.
+  intros virt f p n R Hn. cbn [Nat.add]. rule "ForwardDeclaration"%string.
+  rewrite i_and, seq_cons, i_and, seq_cons, i_and, seq_cons, i_and.
+  set (TAIL := sp n (sp semi R)).
+  assert (Bd : boundary TAIL) by (right; eexists; reflexivity).
+  assert (Bc : boundary (sp kclass TAIL)) by (right; eexists; reflexivity).
+  assert (Step : forall q, exists q',
+     seq (interp g (S (S (S (S (S (S (S (S f))))))))) [GTerm (TKw "class")] (virt_items virt)
+         {| pk := q; rest := sp kclass TAIL |}
+     = Match ((virt_items virt) ++ [([], VStr "class")]) {| pk := q'; rest := TAIL |}).
+  { intros q. rewrite seq_cons, i_term.
+    destruct (kw_self q "c"%char (chars_of "lass") TAIL eq_refl Bd) as [q1 E1].
+    change (string_of ("c"%char :: chars_of "lass")) with "class"%string in E1.
+    change (sp ("c"%char :: chars_of "lass") TAIL) with (sp kclass TAIL) in E1. rewrite E1, seq_nil. exists q1. reflexivity. }
+  assert (Head : exists q', seq (interp g (S (S (S (S (S (S (S (S f)))))))))
+                                [GOpt (GName "is_virtual" (GTerm (TKw "virtual"))); GTerm (TKw "class")] []
+                                {| pk := p; rest := render ((virt_toks virt) ++ [kclass; n; semi]) R |}
+                            = Match ((virt_items virt) ++ [([], VStr "class")])
+                                    {| pk := q'; rest := TAIL |}).
+  { rewrite seq_cons, i_opt, i_name. destruct virt; cbn [app render fold_right virt_items virt_toks]; fold TAIL.
+    - rewrite i_term. destruct (kw_self p "v"%char (chars_of "irtual") (sp kclass TAIL) eq_refl Bc) as [q1 E1].
+      change (string_of ("v"%char :: chars_of "irtual")) with "virtual"%string in E1.
+      change (sp ("v"%char :: chars_of "irtual") (sp kclass TAIL)) with (sp kvirtual (sp kclass TAIL)) in E1.
+      change (sp kvirtual (sp kclass (sp n (sp semi R)))) with (sp kvirtual (sp kclass TAIL)). rewrite E1. cbn [map add_name fst snd app].
+      destruct (Step q1) as [q2 E2]. cbn [virt_items] in E2. exists q2. exact E2.
+    - change (sp kclass (sp n (sp semi R))) with (sp kclass TAIL).
+      rewrite (kw_word_fail _ p "virtual" kclass TAIL ltac:(split; [discriminate | reflexivity]) Bd (safe_nospace _ _ no_blank_virtual) ltac:(discriminate)).
+      cbn [app]. destruct (Step p) as [q2 E2]. cbn [virt_items] in E2. exists q2. exact E2. }
+  destruct Head as [q1 EH].
+  rewrite EH. unfold TAIL.
+  rewrite seq_cons, i_name, (i_ref _ _ "Typename" TN_BODY lookup_Typename).
+  destruct (tn_body_ok (1 + f) q1 n [] (sp semi R) (semi_no_colons R) Hn (Forall_nil _) ltac:(cbn; lia)) as [p2 E2].
+  cbn [Nat.add path_toks render fold_right] in E2. rewrite E2. cbn [map add_name fst snd app]. rewrite seq_nil.
+  rewrite seq_cons, i_opt, i_and, seq_cons, i_sup.
+  rewrite (lit1_other _ p2 ":"%char ";"%char [] R eq_refl eq_refl). rewrite ?seq_nil. rewrite ?seq_cons, i_sup.
+  destruct (lit1_at (Sn 9 f) p2 ";"%char R eq_refl) as [p3 E3]. cbn [Sn] in E3. change (sp [";"%char] R) with (sp semi R) in E3.
+  rewrite E3, ?seq_nil. exists p3. unfold fwd_value. rewrite !app_nil_r, <- app_assoc. reflexivity.
+Qed.
+
+(* the other alternatives on the text of a forward declaration *)
+Lemma include_fails2 : forall p h r f, word h -> boundary r -> interp g (6 + f) (GRef "Include") {| pk := p; rest := sp h r |} = Fail.
+Proof.
+  intros p h r f Hw B. cbn [Nat.add]. rule "Include"%string. rewrite i_and, seq_cons, i_and, seq_cons, i_and, seq_cons.
+  assert (Nb : ~ In " "%char (chars_of "#include")) by noblank.
+  rewrite (kw_word_fail _ p "#include" h r Hw B (safe_nospace _ _ Nb)); [reflexivity|].
+  intros E. apply (hash_not_word). rewrite E. exact Hw.
+Qed.
+Lemma typedef_fails2 : forall p h r f, word h -> boundary r -> h <> chars_of "typedef" ->
+  interp g (6 + f) (GRef "TypedefTemplateInstantiation") {| pk := p; rest := sp h r |} = Fail.
+Proof.
+  intros p h r f Hw B Hd. cbn [Nat.add]. rule "TypedefTemplateInstantiation"%string. rewrite i_and, seq_cons, i_and, seq_cons, i_and, seq_cons.
+  assert (Nb : ~ In " "%char (chars_of "typedef")) by noblank.
+  rewrite (kw_word_fail _ p "typedef" h r Hw B (safe_nospace _ _ Nb)); [reflexivity|]. intros E. apply Hd. symmetry. exact E.
+Qed.
+Lemma enum_fails2 : forall p h r f, word h -> boundary r -> h <> chars_of "enum" ->
+  interp g (10 + f) (GRef "Enum") {| pk := p; rest := sp h r |} = Fail.
+Proof.
+  intros p h r f Hw B Hd. cbn [Nat.add]. rule "Enum"%string.
+  rewrite i_and, seq_cons, i_and, seq_cons, i_and, seq_cons, i_and, seq_cons, i_and, seq_cons, i_or.
+  cbn [alt_longest]. rewrite i_or. cbn [alt_longest].
+  assert (Nb : ~ In " "%char (chars_of "enum")) by noblank.
+  rewrite (kw_word_fail _ p "enum" h r Hw B (safe_nospace _ _ Nb)) by (intros E; apply Hd; symmetry; exact E).
+  assert (S2 : forall w : string, safe (chars_of ("enum " ++ w)) h).
+  { intros w k' E. apply Hd. symmetry. apply (first_blank (chars_of "enum") h (chars_of w) k'); [noblank | apply word_no_blank; exact (proj2 Hw) |].
+    rewrite <- E. reflexivity. }
+  assert (D : forall w : string, chars_of ("enum " ++ w) <> h).
+  { intros w E. apply (word_no_blank h (proj2 Hw)). rewrite <- E. cbn. right. right. right. right. left. reflexivity. }
+  rewrite (kw_word_fail _ p "enum class" h r Hw B (S2 "class") (D "class")).
+  rewrite (kw_word_fail _ p "enum struct" h r Hw B (S2 "struct") (D "struct")). reflexivity.
+Qed.
+
+Lemma alpha_plain : forall c, in_str alpha_ c = true ->
+  solid c = true /\ ceq "("%char c = false /\ ceq "="%char c = false /\ ceq ";"%char c = false /\ ceq ":"%char c = false /\ ceq "{"%char c = false.
+Proof.
+  intros c H. split; [apply alnum_solid, alpha_alnum; exact H|].
+  unfold in_str, cmem in H. apply existsb_exists in H. destruct H as [z [Hz E]]. apply ceq_eq in E. subst z.
+  assert (A : forallb (fun c => negb (ceq "("%char c) && negb (ceq "="%char c) && negb (ceq ";"%char c) && negb (ceq ":"%char c)
+                                && negb (ceq "{"%char c)) (chars_of alpha_) = true) by (vm_compute; reflexivity).
+  rewrite forallb_forall in A. specialize (A c Hz).
+  apply andb_true_iff in A. destruct A as [A A5]. apply andb_true_iff in A. destruct A as [A A4].
+  apply andb_true_iff in A. destruct A as [A A3]. apply andb_true_iff in A. destruct A as [A1 A2].
+  repeat split; apply negb_true_iff; assumption.
+Qed.
+
+Definition kw_type (k : string) : ty := TPlain (Typename [] (NStr k) []) false PNone false.
+Lemma kw_parses : forall k : string, is_ident (chars_of k) = true -> ~ In (chars_of k) reserved ->
+  parses 13 [chars_of k] (ty_value (kw_type k)).
+Proof.
+  intros k Hi Hr. apply (ty_parses 1 (kw_type k)); [cbn; lia|]. cbn [wf_ty kw_type]. split; [reflexivity|]. split.
+  - repeat constructor. exact Hi.
+  - exact Hr.
+Qed.
+Lemma class_parses : parses 13 [kclass] (ty_value (kw_type "class")).
+Proof. apply kw_parses; [reflexivity | vm_compute; intuition discriminate]. Qed.
+Lemma virtual_parses : parses 13 [kvirtual] (ty_value (kw_type "virtual")).
+Proof. apply kw_parses; [reflexivity | vm_compute; intuition discriminate]. Qed.
+
+Lemma class_fails_fwd : forall (virt : bool) f p n R, is_ident n = true ->
+  interp g (20 + f) (GRef "Class") {| pk := p; rest := render (virt_toks virt ++ [kclass; n; semi]) R |} = Fail.
+Proof.
+  intros virt f p n R Hn. cbn [Nat.add]. rule "Class"%string.
+  rewrite i_and, seq_cons, i_and, seq_cons, i_and, seq_cons, i_and, seq_cons, i_and, seq_cons, i_and, seq_cons, i_and, seq_cons, i_and, seq_cons.
+  set (TAIL := sp n (sp semi R)).
+  assert (Bd : boundary TAIL) by (right; eexists; reflexivity).
+  assert (Bc : boundary (sp kclass TAIL)) by (right; eexists; reflexivity).
+  assert (Wc : word kclass) by (split; [discriminate | reflexivity]).
+  assert (Wv : word kvirtual) by (split; [discriminate | reflexivity]).
+  (* what happens from the keyword `class` on, whatever was collected before *)
+  assert (Tail : forall q, match interp g (S (S (S (S (S (S (S (S (S (S (S f))))))))))) (GTerm (TKw "class")) {| pk := q; rest := sp kclass TAIL |} with
+                              | Match its st' => exists q', its = [([], VStr "class")] /\ st' = {| pk := q'; rest := TAIL |}
+                              | _ => False end).
+  { intros q. rewrite i_term. destruct (kw_self q "c"%char (chars_of "lass") TAIL eq_refl Bd) as [q1 E1].
+    change (string_of ("c"%char :: chars_of "lass")) with "class"%string in E1.
+    change (sp ("c"%char :: chars_of "lass") TAIL) with (sp kclass TAIL) in E1. rewrite E1. exists q1. split; reflexivity. }
+  destruct virt; cbn [virt_toks app render fold_right]; fold TAIL.
+  - change (sp kvirtual (sp kclass (sp n (sp semi R)))) with (sp kvirtual (sp kclass TAIL)).
+    pose proof (template_opt_none (4 + f) p kvirtual (sp kclass TAIL) Wv Bc ltac:(discriminate)) as T. unfold TEMPLATE_OPT in T. cbn [Nat.add] in T.
+    rewrite T. clear T. rewrite seq_cons, i_opt, i_name, i_term.
+    destruct (kw_self p "v"%char (chars_of "irtual") (sp kclass TAIL) eq_refl Bc) as [q1 E1].
+    change (string_of ("v"%char :: chars_of "irtual")) with "virtual"%string in E1.
+    change (sp ("v"%char :: chars_of "irtual") (sp kclass TAIL)) with (sp kvirtual (sp kclass TAIL)) in E1. rewrite E1.
+    cbn [map add_name fst snd app]. rewrite ?seq_nil. cbn [app]. rewrite ?seq_cons.
+    pose proof (Tail q1) as TT. destruct (interp g _ (GTerm (TKw "class")) {| pk := q1; rest := sp kclass TAIL |}) as [| |its st'] eqn:EC; try contradiction.
+    destruct TT as [q2 [Ei Es]]. subst its st'. cbn [app]. rewrite ?seq_nil. cbn [app]. rewrite ?seq_cons, i_name. unfold TAIL.
+    assert (Bs : boundary (sp semi R)) by (right; eexists; reflexivity).
+    destruct (IDENT_ok (Sn 10 f) q2 n (sp semi R) Hn Bs) as [q3 E3]. cbn [Sn] in E3. unfold IDENT in E3. rewrite E3.
+    cbn [map add_name fst snd app]. rewrite ?seq_nil. cbn [app]. rewrite ?seq_cons, i_opt, i_and, ?seq_cons, i_sup.
+    rewrite (lit1_other _ q3 ":"%char ";"%char [] R eq_refl eq_refl). cbn [app]. rewrite ?seq_nil. cbn [app]. rewrite ?seq_cons, i_sup.
+    rewrite (lit1_other _ q3 "{"%char ";"%char [] R eq_refl eq_refl). reflexivity.
+  - change (sp kclass (sp n (sp semi R))) with (sp kclass TAIL).
+    pose proof (template_opt_none (4 + f) p kclass TAIL Wc Bd ltac:(discriminate)) as T. unfold TEMPLATE_OPT in T. cbn [Nat.add] in T.
+    rewrite T. clear T. rewrite seq_cons, i_opt, i_name.
+    rewrite (kw_word_fail _ p "virtual" kclass TAIL Wc Bd (safe_nospace _ _ no_blank_virtual) ltac:(discriminate)).
+    cbn [app]. rewrite ?seq_nil. cbn [app]. rewrite ?seq_cons.
+    pose proof (Tail p) as TT. destruct (interp g _ (GTerm (TKw "class")) {| pk := p; rest := sp kclass TAIL |}) as [| |its st'] eqn:EC; try contradiction.
+    destruct TT as [q2 [Ei Es]]. subst its st'. cbn [app]. rewrite ?seq_nil. cbn [app]. rewrite ?seq_cons, i_name. unfold TAIL.
+    assert (Bs : boundary (sp semi R)) by (right; eexists; reflexivity).
+    destruct (IDENT_ok (Sn 10 f) q2 n (sp semi R) Hn Bs) as [q3 E3]. cbn [Sn] in E3. unfold IDENT in E3. rewrite E3.
+    cbn [map add_name fst snd app]. rewrite ?seq_nil. cbn [app]. rewrite ?seq_cons, i_opt, i_and, ?seq_cons, i_sup.
+    rewrite (lit1_other _ q3 ":"%char ";"%char [] R eq_refl eq_refl). cbn [app]. rewrite ?seq_nil. cbn [app]. rewrite ?seq_cons, i_sup.
+    rewrite (lit1_other _ q3 "{"%char ";"%char [] R eq_refl eq_refl). reflexivity.
+Qed.
+
+Lemma or2_tie : forall f a b st its st' its2 st2, interp g f a st = Match its st' -> interp g f b st = Match its2 st2 ->
+  length (rest st2) = length (rest st') -> interp g (S f) (GOr [a; b]) st = Match its st'.
+Proof. intros f a b st its st' its2 st2 Ha Hb Hl. rewrite i_or. cbn [alt_longest]. rewrite Ha, Hb, Hl, Nat.ltb_irrefl. reflexivity. Qed.
+
+Definition fwd_decl (virt : bool) (name : string) : decl :=
+  DFwd {| fw_virtual := virt; fw_tn := Typename [] (NStr name) []; fw_parent := None |}.
+
+Lemma b_decl_fwd : forall k virt n, b_decl (S k) (fwd_value virt n) = Ok (fwd_decl virt (string_of n)).
+Proof. intros k virt n. destruct virt; reflexivity. Qed.
+
+Lemma wf_head_kw : forall k : chars, word k -> k <> kpair -> k <> ktemplate -> wf_head_toks [k].
+Proof. intros k Hw H1 H2. exists k, []. split; [reflexivity|]. split; [exact Hw|]. split; assumption. Qed.
+
+Lemma content_step_fwd : forall virt name, is_ident (chars_of name) = true -> forall p R f, 40 <= f ->
+  exists v p', interp g f OR7 {| pk := p; rest := render (fwd_toks virt name) R |} = Match [([], v)] {| pk := p'; rest := R |}
+               /\ forall k, b_decl (S k) v = Ok (fwd_decl virt name).
+Proof.
+  intros virt name Hn p R f Hf. set (n := chars_of name) in *.
+  assert (X : exists z, f = Sn 7 (21 + z) /\ 12 <= z) by (exists (f - 28); cbn [Sn]; lia).
+  destruct X as [z [Ef Hz]]. subst f. cbn [Sn]. unfold fwd_toks. fold n.
+  destruct (fwd_ok virt (8 + z) p n R Hn) as [p' E].
+  exists (fwd_value virt n), p'. split; [|intros k; rewrite b_decl_fwd; unfold n; rewrite string_chars; reflexivity].
+  assert (Wc : word kclass) by (split; [discriminate | reflexivity]).
+  assert (Wv : word kvirtual) by (split; [discriminate | reflexivity]).
+  set (TAIL := sp n (sp semi R)).
+  assert (Bd : boundary TAIL) by (right; eexists; reflexivity).
+  assert (Bc : boundary (sp kclass TAIL)) by (right; eexists; reflexivity).
+  pose proof (class_fails_fwd virt (2 + z) p n R Hn) as CF.
+  destruct (ident_first_alpha n Hn) as [c [w [En Hc]]]. destruct (alpha_plain c Hc) as [Cs [Cl [Ce [Csm _]]]].
+  destruct virt; cbn [virt_toks app render fold_right] in E, CF |- *.
+  - (* virtual class n ; *)
+    change (sp kvirtual (sp kclass (sp n (sp semi R)))) with (sp kvirtual (sp kclass TAIL)) in E, CF |- *.
+    unfold OR7. apply or2_l; [|apply (namespace_fails p kvirtual _ Wv Bc (20 + z)); discriminate].
+    unfold OR6. apply or2_l.
+    2:{ unfold TAIL. rewrite En. apply (variable_fails 13 [kvirtual] (ty_value (kw_type "virtual")) kclass c w (sp semi R) virtual_parses eq_refl Cs Ce Csm (18 + z) p). lia. }
+    unfold OR5. apply or2_l; [|apply (enum_fails2 p kvirtual _ (15 + z) Wv Bc); discriminate].
+    unfold OR4. apply or2_l.
+    2:{ unfold TAIL. rewrite En. apply (function_fails 13 [kvirtual] (ty_value (kw_type "virtual")) kclass c w (sp semi R) virtual_parses
+                                         (wf_head_kw kvirtual Wv ltac:(discriminate) ltac:(discriminate)) eq_refl Cs Cl (4 + z) p). lia. }
+    unfold OR3. apply or2_l; [|apply (typedef_fails2 p kvirtual _ (17 + z) Wv Bc); discriminate].
+    unfold OR2. apply or2_l; [|exact CF].
+    unfold OR1. apply or2_l; [exact E | apply (include_fails2 p kvirtual _ (15 + z) Wv Bc)].
+  - (* class n ; *)
+    change (sp kclass (sp n (sp semi R))) with (sp kclass TAIL) in E, CF |- *.
+    unfold OR7. apply or2_l; [|apply (namespace_fails p kclass _ Wc Bd (20 + z)); discriminate].
+    unfold OR6.
+    destruct (variable_ok 13 [kclass] (ty_value (kw_type "class")) n class_parses Hn (18 + z) p R ltac:(lia)) as [pv EV].
+    apply (or2_tie _ _ _ _ _ _ [([], var_value (ty_value (kw_type "class")) n)] {| pk := pv; rest := R |}); [| exact EV | reflexivity].
+    unfold OR5. apply or2_l; [|apply (enum_fails2 p kclass _ (15 + z) Wc Bd); discriminate].
+    unfold OR4. apply or2_l.
+    2:{ unfold TAIL. apply (function_fails 13 [kclass] (ty_value (kw_type "class")) n ";"%char [] R class_parses
+                                         (wf_head_kw kclass Wc ltac:(discriminate) ltac:(discriminate)) Hn eq_refl eq_refl (4 + z) p). lia. }
+    unfold OR3. apply or2_l; [|apply (typedef_fails2 p kclass _ (17 + z) Wc Bd); discriminate].
+    unfold OR2. apply or2_l; [|exact CF].
+    unfold OR1. apply or2_l; [exact E | apply (include_fails2 p kclass _ (15 + z) Wc Bd)].
+Qed.
+
 (* ---- where a run of declarations stops: at the end of the text, or at the closing brace of a namespace ---- *)
 Definition lbrace : chars := ["{"%char].
 Definition rbrace : chars := ["}"%char].
@@ -473,12 +694,14 @@ Qed.
 Inductive item : Type :=
 | IFn (x : fn)
 | IVar (t : ty) (name : string)
+| IFwd (virt : bool) (name : string)
 | INs (name : string) (body : list item).
 
 Fixpoint itoks (i : item) : list chars :=
   match i with
   | IFn x => toks_of x
   | IVar t n => var_toks t n
+  | IFwd v n => fwd_toks v n
   | INs n b => [knamespace; chars_of n; lbrace] ++ flat_map itoks b ++ [rbrace]
   end.
 Definition items_toks (l : list item) : list chars := flat_map itoks l.
@@ -486,20 +709,23 @@ Fixpoint idecl (i : item) : decl :=
   match i with
   | IFn x => decl_of x
   | IVar t n => DVar {| v_ty := t; v_name := n; v_default := None |}
+  | IFwd v n => fwd_decl v n
   | INs n b => DNamespace n (map idecl b)
   end.
 Fixpoint idepth (i : item) : nat :=
-  match i with IFn _ => 0 | IVar _ _ => 0 | INs _ b => S (fold_right (fun x acc => Nat.max (idepth x) acc) 0 b) end.
+  match i with IFn _ => 0 | IVar _ _ => 0 | IFwd _ _ => 0 | INs _ b => S (fold_right (fun x acc => Nat.max (idepth x) acc) 0 b) end.
 Fixpoint wf_item (i : item) : Prop :=
   match i with
   | IFn x => wf_fn x
   | IVar t n => wf_var t n
+  | IFwd _ n => is_ident (chars_of n) = true
   | INs n b => is_ident (chars_of n) = true /\ (fix all (l : list item) : Prop := match l with [] => True | x :: r => wf_item x /\ all r end) b
   end.
 Fixpoint need (i : item) : nat :=
   match i with
   | IFn x => fuel_fn x + 25
   | IVar t _ => fuel_of t + 25
+  | IFwd _ _ => 40
   | INs _ b => 37 + length b + fold_right (fun x acc => need x + acc) 0 b
   end.
 Definition needs (l : list item) : nat := 31 + length l + fold_right (fun x acc => need x + acc) 0 l.
@@ -547,10 +773,12 @@ Proof.
       set (REST := render (items_toks items) R) in *.
       assert (Step : exists v p1, interp g F OR7 {| pk := p; rest := render (itoks i) REST |} = Match [([], v)] {| pk := p1; rest := REST |}
                                   /\ forall bf, S n <= bf -> b_decl bf v = Ok (idecl i)).
-      { destruct i as [x|t nm|nm b].
+      { destruct i as [x|t nm|vt nm|nm b].
         - cbn [wf_item itoks idecl need] in *. destruct (content_step x Hwi p REST F ltac:(lia)) as [v [p1 [E B]]].
           exists v, p1. split; [exact E|]. intros bf Hbf. destruct bf as [|bf]; [lia|]. apply B.
         - cbn [wf_item itoks idecl need] in *. destruct (content_step_var t nm Hwi p REST F ltac:(lia)) as [v [p1 [E B]]].
+          exists v, p1. split; [exact E|]. intros bf Hbf. destruct bf as [|bf]; [lia|]. apply B.
+        - cbn [wf_item itoks idecl need] in *. destruct (content_step_fwd vt nm Hwi p REST F ltac:(lia)) as [v [p1 [E B]]].
           exists v, p1. split; [exact E|]. intros bf Hbf. destruct bf as [|bf]; [lia|]. apply B.
         - cbn [wf_item itoks idecl need idepth] in *. destruct Hwi as [Hnm Hall].
           assert (Hb : forall j, In j b -> idepth j < n /\ wf_item j).
@@ -713,10 +941,13 @@ Qed.
 
 Lemma item_facts : forall n i, idepth i < n -> wf_item i -> Forall tok_ok (itoks i) /\ need i + 1 <= 32 * length (itoks i).
 Proof.
-  induction n as [|n IH]; intros i Hd Hw; [lia|]. destruct i as [x|t nm|nm b].
+  induction n as [|n IH]; intros i Hd Hw; [lia|]. destruct i as [x|t nm|vt nm|nm b].
   - cbn [wf_item itoks need] in *. destruct (fn_facts x Hw) as [F1 [F2 F3]]. split; [exact F1 | lia].
   - cbn [wf_item itoks need] in *. destruct Hw as [Hw [Hdt [_ Hn]]]. destruct (ty_facts _ _ Hdt Hw) as [T1 T2]. unfold var_toks. split.
     + apply Forall_app. split; [exact T1|]. constructor; [apply ident_tok; exact Hn | tok_lit].
+    + rewrite app_length. cbn [length]. lia.
+  - cbn [wf_item itoks need] in *. unfold fwd_toks. split.
+    + apply Forall_app. split; [destruct vt; cbn [virt_toks]; tok_lit|]. constructor; [tok_lit|]. constructor; [apply ident_tok; exact Hw | tok_lit].
     + rewrite app_length. cbn [length]. lia.
   - cbn [wf_item itoks need idepth] in *. destruct Hw as [Hnm Hall].
     assert (Hb : forall j, In j b -> Forall tok_ok (itoks j) /\ need j + 1 <= 32 * length (itoks j)).
